@@ -17,7 +17,7 @@ Law(fn) == CASE fn \in {"Clone", "Round", "Round.default", "project.Geometry"} -
              [] fn \in {"simplify.DouglasPeucker", "simplify.Visvalingam", "simplify.Radial"} -> "mapnil"
              [] fn \in {"planar.Area", "planar.Length", "planar.CentroidArea.area"} -> "sum"
              [] fn \in {"planar.DistanceFrom", "planar.DistanceFromWithIndex"} -> "min"
-             [] fn = "clip.Geometry" -> "filter"
+             [] fn \in {"clip.Geometry", "clip.Geometry.wide"} -> "filter"
              [] fn = "smartclip.Geometry" -> "filtersmart"
              [] fn = "tilecover.Geometry" -> "union"
              [] OTHER -> "none"
